@@ -92,8 +92,10 @@ pub fn main() -> ! {
                     continue;
                 }
                 if let Ok(f) = Frame::from_bytes(b) {
+                    // "newly added" is judged by the tracked set, not by the tracker's own answer
+                    let before = p.len();
                     let a = p.action(f, rx, range);
-                    if a == Added::Yes {
+                    if p.len() > before {
                         total += 1;
                     }
                     most = most.max(p.len());
